@@ -290,7 +290,10 @@ __CPROVER_ensures((__cmd != NULL && __CPROVER_return_value != NULL && (__cmd->c.
 	 g_cs_replace[GEN_IDX_NBF(__cmd)] == 1 && g_cs_target[GEN_IDX_NBF(__cmd)] == g_dc_res[1])) \
 __CPROVER_ensures((__cmd != NULL && __CPROVER_return_value != NULL && (__cmd->c.claims & JWT_CLAIM_EXP)) ==> \
 	(g_cs_name0[GEN_IDX_EXP(__cmd)] == 'e' && g_cs_val[GEN_IDX_EXP(__cmd)] == (long)(g_now + __cmd->c.exp) && \
-	 g_cs_replace[GEN_IDX_EXP(__cmd)] == 1 && g_cs_target[GEN_IDX_EXP(__cmd)] == g_dc_res[1]))
+	 g_cs_replace[GEN_IDX_EXP(__cmd)] == 1 && g_cs_target[GEN_IDX_EXP(__cmd)] == g_dc_res[1])) \
+/* the header (forced alg, default typ) is set up exactly ONCE, for the algorithm the token is encoded with -- \
+ * contract_C10_jwt_head_setup adds typ for a signed alg and never removes it, so a second pass with another alg would leave it behind */ \
+__CPROVER_ensures((__cmd != NULL && __CPROVER_return_value != NULL) ==> (g_hs_calls == 1 && g_hs_alg == g_enc_alg))
 /* C19-like for the builder / C13: a failing callback fails the call */
 #define C13_GEN_CLAUSES \
 __CPROVER_ensures((__cmd != NULL && g_cb_called && g_cb_ret != 0) ==> __CPROVER_return_value == NULL) \
